@@ -272,6 +272,45 @@ fn run_case<T: Elem>(case: u64, args: &Args, ev: &mut Ev, log: &mut EventLog) {
     let _ = kind;
 }
 
+/// Grids whose axes carry sentinel knots at +-MAX (every single cell is representable, the
+/// total span is not): every node is a query "inside the grid", must be answered, and every node
+/// that is the lower corner of its cell in both directions must be reproduced exactly.
+fn sentinel_axes(ev: &mut Ev) {
+    use vh::ndarray::Array2;
+    use vh::ndarray_interp::interp2d::Interp2D;
+    let m = f64::MAX;
+    let mut rng = Rng::derive(4, "C04-sentinel-axes", &[0]);
+    let axes: Vec<Vec<f64>> = vec![vec![-m, -1.0, 0.5, 3.0, m], vec![-m, 0.0, m], vec![-2.0, 0.0, 1.0, m], vec![-m, -4.0, -1.0], vec![0.0, 1.0, 2.5]];
+    let mut id = 9_700_000u64;
+    for ax in &axes {
+        for ay in &axes {
+            let (nx, ny) = (ax.len(), ay.len());
+            let z = Array2::from_shape_fn((nx, ny), |_| (rng.below(2001) as f64 - 1000.0) / 8.0);
+            let b = Interp2D::builder(z.clone()).x(Array1::from(ax.clone())).y(Array1::from(ay.clone())).build().unwrap();
+            for i in 0..nx {
+                for j in 0..ny {
+                    id += 1;
+                    ev.add("sentinel_axis_node_queries", 1);
+                    let r = vh::outcome::guard(|| b.interp_scalar(ax[i], ay[j]).map_err(|e| e.to_string()));
+                    let exact_corner = i + 1 < nx && j + 1 < ny;
+                    let ok = match &r {
+                        Ok(Ok(v)) => !exact_corner || *v == z[[i, j]],
+                        _ => false,
+                    };
+                    if !ok {
+                        ev.violation(
+                            if matches!(r, Ok(Ok(_))) { "C04:node-not-reproduced" } else { "C04:query-not-answered" },
+                            &format!("x axis {ax:?}, y axis {ay:?}: node ({i},{j}) = ({:?},{:?}) with value {:?} -> {:?}", ax[i], ay[j], z[[i, j]], r),
+                            id,
+                            J::obj().set("x", format!("{ax:?}")).set("y", format!("{ay:?}")),
+                        );
+                    }
+                }
+            }
+        }
+    }
+}
+
 fn main() {
     let args = Args::parse("C04");
     let n = args.budget(800, 100000);
@@ -282,6 +321,10 @@ fn main() {
             run_case::<f64>(case, &args, ev, log)
         }
     });
+    let mut ev = ev;
+    if args.only.is_none() && args.shard == 0 {
+        sentinel_axes(&mut ev);
+    }
     ev.finish(
         &args,
         "random grids 2x2..12x9 (independent axis classes per axis incl. ulp-clusters and default \
